@@ -572,7 +572,16 @@ func (en *DefaultEngine) Flush(ctx context.Context, w io.Writer) (int, error) {
 		if len(en.exit) == 0 {
 			return 0, err
 		}
-	} else {
+	}
+	if en.cfg.OutputSize > 0 && len(en.exit) > 0 && uint32(len(r)+len(en.exit)) > en.cfg.OutputSize {
+		// the exit value is appended to the rendered page: the sum must fit, too
+		if en.exiting {
+			en.reset(ctx)
+			en.exiting = false
+		}
+		return 0, fmt.Errorf("final output of %v bytes exceeds output size %v", len(r)+len(en.exit), en.cfg.OutputSize)
+	}
+	if err == nil {
 		if len(r) > 0 {
 			l, err = io.WriteString(w, r)
 			if err != nil {
